@@ -178,8 +178,24 @@ DIRECTED = [
 ]
 
 
+SMALL = [("define", [(1, [10])]), ("define", [(2, [20, 10])]), ("define", [(1, [])]), ("define", []), ("define", [(1, [10]), (1, [20])]), ("define", [(2, [99])]),
+         ("link", [(1, [1])]), ("link", [(1, [1, 2])]), ("link", [(2, [1, 1])]), ("link", [(1, [])]), ("link", [(1, [2]), (2, [2])]), ("link", [(7, [1])]),
+         ("enable", True, []), ("enable", False, [1]), ("enable", True, [1, 7]), ("request", 1), ("request", 2), ("trigger", 1)]
+
+
+def exhaustive(depth, alphabet):
+    import itertools
+    for seq in itertools.product(alphabet, repeat=depth):
+        yield list(seq) + [("request", 1), ("request", 2)]
+
+
 def gen_cases(rnd, tier):
     cases = [("directed", d) for d in DIRECTED]
+    if tier == "thorough":
+        cases += [("exhaustive3", h) for h in exhaustive(3, SMALL[:15])]
+        cases += [("exhaustive2", h) for h in exhaustive(2, SMALL)]
+    else:
+        cases += [("exhaustive2", h) for k, h in enumerate(exhaustive(2, SMALL)) if k % 3 == 0]
     n = 120 if tier == "quick" else 800
     for _ in range(n):
         cases.append(("random", rand_ops(rnd, rnd.randint(2, 14 if tier == "quick" else 40))))
